@@ -1,4 +1,6 @@
 """C03 - whole-machine suite over scope trees and random valid programs (see scopesuite.py)."""
+import json
+
 import msuite
 import scopesuite
 
@@ -76,7 +78,8 @@ def refine(msg, impl, model, sc):
     codes = {int(v) for v in re.findall(r'-?\d+', msg.split(':')[-1])} if ':' in msg else set()
     return {'first_consumer_suspended_when_activity_failed': hit,
             'only_the_signal_and_the_assertion_it_trips': bool(codes) and codes <= {3, 9, 10},
-            'as_modelled': model is not None and model['events'] == impl['events'] and model['outcome'] == impl['outcome']}
+            'as_modelled': model is not None and model['events'] == impl['events'] and model['outcome'] == impl['outcome'],
+            'ticker_kept_alive_elsewhere': 'intervalkept' in json.dumps(sc, default=str)}
 
 
 #: known finding F14: first() over three activities, the second fails at 2 while the consumer sleeps in its loop body
@@ -85,9 +88,15 @@ F14_PROBE = ['scenario', ['debug', 1], ['start', 0], ['flags', 1], ['locks', 0],
                                                   ['prog', ['sleep', 3], ['log', 6], ['ret', 13]]], ['sleep', 5]], ['log', 2], ['sleep', 3]]]]
 
 
+#: known finding F21: a ticker object that the program also keeps elsewhere, in a volatile child that is closed while it waits for a tick
+F21_PROBE = ['scenario', ['debug', 1], ['start', 0], ['flags', 1], ['locks', 0],
+             ['roots', ['prog', ['scope', 0, ['none'], ['spawn', 0, 0, None, None, True, ['prog', ['intervalkept', 2, 5, 0, ['sleep', 1]]]],
+                                 ['sleep', 3]], ['log', 2], ['sleep', 5], ['log', 3]]]]
+
+
 def run(tier, seed, drv):
     return msuite.standard_run(PID, 'C03', TAGS, tier, seed, drv, SOURCES, nontrivial=nontrivial, rule=RULE,
-                               n_quick=200, n_thorough=6000, refine=refine, probes=[('F14', F14_PROBE)], optimized=100 if tier == 'quick' else 1000)
+                               n_quick=200, n_thorough=6000, refine=refine, probes=[('F14', F14_PROBE), ('F21', F21_PROBE, False)], optimized=100 if tier == 'quick' else 1000)
 
 
 def replay(data, drv):
